@@ -7,13 +7,13 @@
  "annotate": ["datastruct/ptrheap.c", "datastruct/elasticarray.c"],
  "specs": {"datastruct/elasticarray.c": "contracts/c13_elasticarray_bounds.spec"},
  "models": ["models/heap_realloc.c", "models/heap_memcpy.c"],
- "defines": ["VERIF_HALLOC", "HP_TARGET_PTRHEAP", "HP_MAXN=5"],
- "thorough_defines": ["HP_MAXN=7"],
- "matrix": {"HP_MODEL": [1, 2]},
+ "defines": ["VERIF_HALLOC", "HP_TARGET_PTRHEAP", "HP_ANYLAYOUT", "HP_MAXN=4"],
+ "thorough_defines": ["HP_MAXN=5"],
+ "matrix": {"HP_MODEL": [1]},
  "loop_contracts": false,
  "cbmc": ["--unwindset", "heapify.0:5,heapifyup.0:5", "--malloc-may-fail", "--malloc-fail-null", "--memory-leak-check"],
- "unwind": 7, "thorough_unwind": 9,
- "bounded": true, "bound": "heaps with <= 5 elements (quick) / <= 7 (thorough); all loops fully unwound",
+ "unwind": 6, "thorough_unwind": 7,
+ "bounded": true, "bound": "heaps with <= 4 elements (quick) / <= 5 (thorough), arbitrary slot -> record map incl. duplicate pointers; all loops fully unwound",
  "timeout": 600, "thorough_timeout": 3600,
  "assumptions": ["HP_MODEL=1: abstract user callbacks of harness/C13/hp_model.h; HP_MODEL=2: real struct timerrec, compar, setreccookie of timerqueue.c",
                  "slot k of the initial heap holds record object R[k]: symmetry reduction, sound for distinct elements because ptrheap.c never inspects element pointers (arbitrary layouts incl. duplicate pointers: groups *_any at 4 elements)",
